@@ -61,10 +61,14 @@ pub fn log(s: Spy) {
 
 /// Payload whose encode/decode record their invocation (and can be steered).
 #[derive(Clone, Debug, PartialEq, Eq)]
-pub struct SpyClaims(pub Vec<u8>);
+pub struct SpyClaimsS<const C: bool>(pub Vec<u8>);
+/// the standard encoding (no header suffix)
+pub type SpyClaims = SpyClaimsS<false>;
+/// the same payload declared as another encoding: header suffix "c" (vNc.local. / vNc.public.)
+pub type SpyClaimsC = SpyClaimsS<true>;
 
-impl Payload for SpyClaims {
-    const SUFFIX: &'static str = "";
+impl<const C: bool> Payload for SpyClaimsS<C> {
+    const SUFFIX: &'static str = if C { "c" } else { "" };
     fn encode(self, mut w: impl WriteBytes) -> Result<(), Box<dyn Error + Send + Sync>> {
         let fail = ENCODE_FAIL.with(|d| d.borrow().0);
         log(Spy::ClaimsEncode { ok: !fail });
@@ -78,7 +82,7 @@ impl Payload for SpyClaims {
         let mode = DECODE_MODE.with(|d| *d.borrow());
         log(Spy::Decode { bytes: p.to_vec(), ok: mode == DecodeMode::Ok });
         match mode {
-            DecodeMode::Ok => Ok(SpyClaims(p.to_vec())),
+            DecodeMode::Ok => Ok(SpyClaimsS(p.to_vec())),
             DecodeMode::Fail => Err("decode failure injected".into()),
             DecodeMode::Panic => panic!("SPY-DECODE-INVOKED"),
         }
@@ -105,13 +109,14 @@ impl Footer for SpyFooter {
 }
 
 /// Validator that records its invocation and returns a scripted verdict.
-pub struct SpyValidator {
+pub struct SpyValidatorS<const C: bool> {
     pub verdict: bool,
 }
+pub type SpyValidator = SpyValidatorS<false>;
 
-impl Validate for SpyValidator {
-    type Claims = SpyClaims;
-    fn validate(&self, claims: &SpyClaims) -> Result<(), PasetoError> {
+impl<const C: bool> Validate for SpyValidatorS<C> {
+    type Claims = SpyClaimsS<C>;
+    fn validate(&self, claims: &SpyClaimsS<C>) -> Result<(), PasetoError> {
         log(Spy::Validate { claims: claims.0.clone(), verdict: self.verdict });
         if self.verdict { Ok(()) } else { Err(PasetoError::ClaimsError) }
     }
